@@ -1,6 +1,6 @@
 (* Properties_C02.v -- the C02 theorems and nothing else. *)
 From Coq Require Import NArith ZArith List.
-From Qv Require Import gen.Tables EscapeModel TmplModel TmplRender TmplProofs.
+From Qv Require Import gen.Tables EscapeModel TmplModel TmplRender TmplProofs TparseModel TparseRound.
 Import ListNotations.
 
 (* The renderer of the implementation layer -- a tag tree with offsets into the
@@ -29,3 +29,12 @@ Print Assumptions c02_render_tree_needs_wf.
 Theorem c02_plain_text : forall auto w root s, render_ast auto w root [TText s] = s.
 Proof. intros auto w root s. rewrite (render_ast_expand auto w root [TText s] eq_refl). unfold expand. cbn. apply app_nil_r. Qed.
 Print Assumptions c02_plain_text.
+
+(* parser round trip for the leaf fragment: the parser model applied to the printed
+   text of an AST of texts, {var:} and {raw:} tags (names of 1..255 units, no tag
+   characters in texts and names) builds exactly the tag tree the renderer theorem
+   is about; loops, ifs, math, svar and inline if: correspondence only *)
+Theorem c02_parse_print_leaves : forall w ast, wf_print ast = true ->
+  parse_model w (print_nodes ast) = Ok (tree_of (lay_nodes 0 ast)).
+Proof. exact parse_print_leaves. Qed.
+Print Assumptions c02_parse_print_leaves.
